@@ -205,21 +205,33 @@ Definition ipow (x y : bint) : res bint :=
   else if bisone y then Ok x
   else ipow_loop (S (Z.to_nat BINT_BITS)) x y bint_one.
 
-(* ---- upowmod ---- *)
+(* ---- upowmod (as repaired in /repo: "fix: bint.upowmod is exact for every modulus") ---- *)
+(* local uaddmod(a, b, m): (a + b) mod m for unsigned a, b < m; no intermediate exceeds m *)
+Definition uaddmod (a b m : bint) : bint :=
+  let mb := bsub m b in
+  if ult a mb then badd a b else bsub a mb.
+(* (b[(i // WORDBITS) + 1] >> (i % WORDBITS)) & 1 == 1 *)
+Definition test_bit (b : bint) (i : Z) : bool :=
+  lband (lshr (nthz b (Z.to_nat (idiv_wb i))) (imod_wb i)) 1 =? 1.
+(* local umulmod(a, b, m): for i=BINT_BITS-1,0,-1: r = 2r mod m; if bit i of b then r = r + a mod m *)
+Fixpoint umulmod_loop (n : nat) (a b m r : bint) : bint :=
+  match n with
+  | O => r
+  | S n' =>
+      let r1 := uaddmod r r m in
+      let r2 := if test_bit b (Z.of_nat n') then uaddmod r1 a m else r1 in
+      umulmod_loop n' a b m r2
+  end.
+Definition umulmod (a b m : bint) : bint := umulmod_loop (Z.to_nat BINT_BITS) a b m bint_zero.
+
 Fixpoint upowmod_loop (fuel : nat) (x y z m : bint) : res bint :=
   match fuel with
   | O => Err EFuel
   | S f =>
       if biszero y then Ok z
       else
-        match (if bisodd y then umod (bmul z x) m else Ok z) with
-        | Err e => Err e
-        | Ok z' =>
-            match umod (bmul x x) m with
-            | Err e => Err e
-            | Ok x' => upowmod_loop f x' (shrone y) z' m
-            end
-        end
+        let z' := if bisodd y then umulmod z x m else z in
+        upowmod_loop f (umulmod x x m) (shrone y) z' m
   end.
 Definition upowmod (x y m : bint) : res bint :=
   if bisone m then Ok bint_zero
